@@ -24,6 +24,14 @@ CLAIMS = {
          "Decides structural necessary conditions for ALL strings: (K1) every key builder/parser pair of kvgraph and kvindex agrees component-wise; (K2) every client string (gid, from, to, label, graph name) that a write path of the embedded driver places into a separator-joined key is, on every path to the store write, checked by a validator that rejects the separator byte; (K3) client strings used as non-trailing components of '.'-joined index field names are validated free of '.'; (K4) variable-length byte components followed by other components are fixed-width or separator-free. Does not decide round-trips of property values, unicode, or job directory names.",
          "Trusted: go/types, go/cfg; a validator that calls strings.Contains*/Index* with the separator on a field is assumed to reject on a match.",
          "DESIGN.md §4 C16"),
+ "C09": ("key-codec agreement, encoder/parser width agreement, channel producer typestate (go/types AST + go/cfg)",
+         "Thin structural claim, labelled as such: index key builders/parsers agree component-wise, the parser's fixed width for number terms equals the encoder's output width, no index query fills a bounded channel before returning it, and every index query closes the channel it returns on every path of its producer goroutine. It decides none of the value-level content of the property (index answers = scan of live documents).",
+         "Trusted: go/types, go/cfg.",
+         "DESIGN.md §4 C09"),
+ "C15": ("all-exits-non-nil dataflow (go/cfg), call-tree reachability, builder/parser shape comparison (go/types AST)",
+         "Decides for ALL inputs that every write entry point of the gripper (external table) driver refuses — returns a certainly non-nil error on every path — and never reaches the table-service client, and that the synthetic edge-id builder and parser agree on separator, arity and positions. Does not decide the row→vertex/edge synthesis or equivalence with the materialised graph.",
+         "Trusted: go/types, go/cfg; static call resolution (no calls through function values on these paths).",
+         "DESIGN.md §4 C15"),
 }
 
 PENDING_REASON = "check not built yet in this round; see DESIGN.md §4 for the structural clause planned (static analysis)"
